@@ -39,6 +39,7 @@ def templates():
     mk("if_else_branches", lambda b: T(("decl", b.occ("d"), []), ("if", [b.occ("u")], T(("decl", b.occ("d"), []), ("use", b.occ("u"))), T(("use", b.occ("u")), ("decl", b.occ("d"), []))), ("use", b.occ("u"))))
     mk("loop_local", lambda b: T(("decl", b.occ("d"), []), ("loop", [b.occ("u")], T(("decl", b.occ("d"), [b.occ("u")]), ("use", b.occ("u")))), ("use", b.occ("u"))))
     mk("case_binding", lambda b: T(("decl", b.occ("d"), []), ("case", b.occ("d"), T(("use", b.occ("u")), ("decl", b.occ("d"), []), ("use", b.occ("u"))), T(("use", b.occ("u")))), ("use", b.occ("u"))))
+    mk("case_else_local", lambda b: T(("decl", b.occ("d"), []), ("case", b.occ("d"), T(("decl", b.occ("d"), []), ("use", b.occ("u"))), T(("decl", b.occ("d"), []), ("use", b.occ("u")))), ("use", b.occ("u"))))
     mk("closure_params", lambda b: T(("decl", b.occ("d"), []), ("closure", b.occ("d"), [b.occ("d")], T(("use", b.occ("u")), ("decl", b.occ("d"), []), ("use", b.occ("u")))), ("use", b.occ("u"))))
     mk("use_before_decl", lambda b: T(("use", b.occ("u")), ("decl", b.occ("d"), [b.occ("u")]), ("use", b.occ("u")), ("redecl", b.occ("d"), [b.occ("u")]), ("use", b.occ("u"))))
     mk("local_function_recursion", lambda b: T(("localfn", b.occ("d"), [b.occ("d")], T(("use", b.occ("u")), ("use", b.occ("u")))), ("use", b.occ("u"))))
@@ -245,6 +246,36 @@ def expected_concrete(st, names):
     return {u: z3.simplify(t).as_long() for u, t in exp.items()}
 
 
+def name_class_cases(sylt, fnd):
+    """a local binder whose name is also the name of something of another class visible in the file (an imported namespace,
+    a blob type, an enum, a global function): renaming the local to a fresh name must not change what the program prints"""
+    from luasym.luaparse import parse
+    from luasym import runner
+    files = {"other.sy": "x :: 100\nhelper :: fn -> int do ret 7 end\n"}
+    head = "use other\nuse other as alias\nPoint :: blob {\n    x: int,\n}\nglob :: fn -> int do ret 5 end\n"
+    bodies = {"field_of_local": "    NAME :: Point { x: 1 }\n    print(NAME.x)\n    print(NSREF.x)\n",
+              "local_in_closure": "    NAME := Point { x: 2 }\n    c :: fn -> int do ret NAME.x end\n    print(c())\n",
+              "parameter": "    f :: fn NAME: Point -> int do ret NAME.x end\n    print(f(Point { x: 3 }))\n",
+              "assign_field": "    NAME := Point { x: 4 }\n    NAME.x = 5\n    print(NAME.x)\n    print(NSREF.x)\n"}
+    n = 0
+    for bname, body in bodies.items():
+        outs = {}
+        for nm in ("fresh_q", "other", "alias", "glob"):
+            body = bodies[bname].replace("NSREF", "alias" if nm == "other" else "other")      # a handle on the namespace that the local does not shadow
+            text = head + "start :: fn do\n" + body.replace("NAME", nm) + "end\n"
+            rc, lua, out = common.compile_sy(sylt, dict(files, **{"main.sy": text})); n += 1
+            if rc != 0 or lua is None: outs[nm] = ("rejected", out[-200:].replace("\n", " ")); continue
+            events, outcome, it = runner.run_concrete(parse(lua))
+            outs[nm] = ("prints", [e[1] for e in events if e[0] == "print"], outcome[0])
+        base = outs["fresh_q"]
+        for nm, o in outs.items():
+            if o[0] == "prints" and base[0] == "prints" and o != base:
+                fnd.report("renaming-changes-behaviour:local-named-like-%s" % {"other": "namespace", "alias": "namespace-alias", "glob": "global-function"}[nm],
+                           "%s: with the local named %r the program prints %s, with a fresh name %s" % (bname, nm, o[1:], base[1:]), dict(files, **{"main.sy": head + "start :: fn do\n" + body.replace("NAME", nm) + "end\n", "renamed.sy": head + "start :: fn do\n" + body.replace("NAME", "fresh_q") + "end\n"}),
+                           cmd="sylt -o a.lua main.sy; sylt -o b.lua renamed.sy   # both accepted; run both")
+    return n
+
+
 def run(tier):
     t0 = time.time()
     from mirsym import pipeline
@@ -281,6 +312,7 @@ def run(tier):
             exp = expected_concrete(st, names); ok, vals, text = native_prints(art["sylt"], st, names); val += 1
             if ok != all(v != -1 for v in exp.values()):
                 fnd.report(("accepted-unresolvable:" if ok else "rejected-resolvable:") + name, "names %s: reference says %s, native compiler %s" % (names, "resolvable" if not ok else "some use unresolvable", "accepts" if ok else "rejects"), {"main.sy": text})
+    val += name_class_cases(art["sylt"], fnd)
     cov = {"states": max(1, tot["paths"]), "transitions": max(1, tot["queries"]), "traces_validated_against_impl": replayed + val, "samples": samples or [{"note": "none"}], "templates": len(jobs), "mir_statements": tot["steps"],
            "functions_encoded": ["name_resolution::resolve (Resolver::*)", "dependency::initialization_order", "typechecker::solve", "intermediate::compile"],
            "bounds": {"names": NAMES, "occurrences_per_template": "<= 9", "scope_templates": [j[0] for j in jobs]}, "known_findings_seen": sorted(fnd.seen_known)}
